@@ -1,10 +1,18 @@
 (* Correspondence cases for C17: one schedule driven through the real stream.Stream / stream.Reader.
+   A stream format is the pair (media index, format index within the media); `fmts` lists the pairs of the stream.
    A case lists the atomic steps in the order the driver made them happen, each with what was observed right after
    it on the real objects:
-     - for a ReaderPull step: the item whose callback started (None: Pull answered false and the goroutine exited),
-     - a snapshot (reader id, OutboundFramesDiscarded(), occupied ring slots) of every reader added so far,
-     - per stream format (same order as fmts) the readers present in streamFormat.onDatas;
-   and at the end, per reader, the callbacks that returned (in order) and whether RemoveReader has returned. *)
+     - Reg r m f keys: the call r.OnData(media m, format f, cb) on a reader that was not added yet, and the pairs
+       found in the Reader's own r.onDatas table after it;
+     - Sto l pulled snap subs, for every other label:
+       - for a ReaderPull step: the item whose callback started (NoPull: Pull answered false and the goroutine exited),
+       - a snapshot (reader id, OutboundFramesDiscarded(), occupied ring slots) of every reader added so far whose
+         state cannot change concurrently,
+       - per stream format (same order as fmts) the readers present in streamFormat.onDatas;
+   and at the end, per reader, the callbacks that returned (in order) and whether RemoveReader has returned.
+   The forced "raced switch" of the driver (a WriteUnit of the current publisher waits for Stream.mutex while a new
+   publisher is installed) appears as LNewSub B followed by LWrite A ...: the order Props/C17.v
+   (C17_write_call_atomic) gives for the code. *)
 From Coq Require Import List ZArith Bool Arith.
 Require Export MTX.Model.C17_StreamSM.
 Import ListNotations.
